@@ -355,7 +355,9 @@ func (s *server) ServeHTTP(w http.ResponseWriter, r *http.Request) {
 	} else if s.Opts().Transports().Has(transports.WEBSOCKET) {
 		s.HandleUpgrade(types.NewHttpContext(w, r))
 	} else {
-		http.Error(w, "Not Implemented", http.StatusNotImplemented)
+		// without websocket support an upgrade request is an ordinary request:
+		// it goes through the same admission checks and gets the documented error
+		s.HandleRequest(types.NewHttpContext(w, r))
 	}
 }
 
